@@ -210,6 +210,22 @@ def run(tier, replay=None):
         report.violation({"kind": "counterexample", "what": "Item.from_sml did not terminate within 8 s on this text", **h, "broken_obligation": proof.get("broken")}, True, tag="hang")
     bad, stats = evaluate(lits, "c15")
     c16.decide_lits(report, "C15", lits, bad, stats, proof, SPEC_CODES, MODEL_CODES)
+    # "any nesting": a list 300 levels deep is printed by to_sml(); is it read back?
+    deep, res = 7, {"depth": 300}
+    for _ in range(300):
+        deep = [deep]
+    try:
+        item = Item.from_value(deep)
+        text = item.to_sml()
+        res["to_sml"] = "ok"
+        try:
+            res["from_sml"] = "same item" if Item.from_sml(text).encode() == item.encode() else "another item"
+        except RecursionError:
+            res["from_sml"] = "RecursionError"
+    except RecursionError:
+        res["to_sml"] = "RecursionError"       # not printed: nothing to read back
+    common.known_or_violation(report, "C15", "C15-deep-nesting", res.get("from_sml", "same item") == "same item", res,
+                              "the SML text of a deeply nested list was not parsed back to the same item", "deep")
     import hashlib
     from collections import Counter
     cov = report.coverage
